@@ -414,6 +414,273 @@ def predictClose (r : CRes) : Option Leak :=
   (runC init sched).map leakOf
 
 
+/-! ### the recoverer driven directly (`service.NewRecoverer` is a public constructor)
+
+The plugin starts every recoverer exactly once, with `context.Background()`.  A caller of the public constructor can do
+three things the plugin never does: hand `Start` a context and cancel it, call `Start` while a `Start` is in progress,
+and call `Start` again after it returned.  `XCore` adds what these need to `Core`; `xstep` adds the steps:
+
+    ctxCancel     the caller cancels the context of the Start call in progress
+    sCtxDone      serviceStart: `case <-ctx.Done(): m.running.Store(false); return`   (recoverable.go, the arm the plugin never reaches)
+    gCtxSeen      the wrapped service's loop: `case <-ctx.Done(): return nil`  (time ticker, result store; the coordinator and the
+                  runner ignore the context of Start — `honours = false`)
+    startRefused  a further Start call while one is in progress: `if m.running.Load() { return ErrServiceAlreadyStarted }`
+    startAgain    a further Start call after the previous one returned (it brings a fresh context)
+    cSvcCloseErr  the wrapped service's Close stops it AND returns an error (a collaborator failed on the way)
+
+On the labels of `Core` `xstep` IS `stepCore`; with `ctxDone = false` and none of the three caller actions taken it is
+nothing else (Props: `xrun_projects_to_core`), so every theorem about `runC` is a theorem about the plugin's recoverers. -/
+
+structure XCore where
+  c       : Core
+  ctxDone : Bool     -- the context of the Start call in progress (or of the last one) is cancelled
+  honours : Bool     -- the wrapped service's loop selects on the context handed to its Start
+deriving DecidableEq, Repr
+
+inductive XLabel
+  | core (l : CLabel)
+  | ctxCancel | sCtxDone | gCtxSeen | startRefused | startAgain
+  | cSvcCloseErr    -- Close: `err := m.service.Close()` STOPS the service and returns an error all the same (a collaborator of
+                    -- the service failed on the way: the metadata store's block source refusing to unsubscribe)
+deriving DecidableEq, Repr
+
+/-- serviceStart's `select` has a second arm: which states it can be taken in -/
+def ctxArmEnabled (ctxDone : Bool) (spc : SPc) : Bool := ctxDone && (decide (spc = .sel) || decide (spc = .parked))
+
+def xstep (x : XCore) : XLabel → Option XCore
+  | .core l => (stepCore x.c l).map fun c' => { x with c := c' }
+  | .ctxCancel => if x.ctxDone then none else some { x with ctxDone := true }
+  | .sCtxDone =>
+    if ctxArmEnabled x.ctxDone x.c.spc then some { x with c := { x.c with spc := .done, running := false } } else none
+  | .gCtxSeen =>     -- the loop returns nil: deferred `close(t.done)` for the ticker; the result store has nothing to close
+    if x.ctxDone ∧ x.honours ∧ x.c.nRun ≠ 0 then
+      some { x with c := { x.c with nRun := x.c.nRun - 1, done := x.c.done || !x.c.latched, nSendNil := x.c.nSendNil + 1 } }
+    else none
+  | .startRefused =>
+    if flagStartRefuses x.c.running ∧ x.c.spc ≠ .init ∧ x.c.spc ≠ .done then some x else none
+  | .cSvcCloseErr =>
+    if x.c.cpc = .svcClose ∧ x.c.latched = false ∧ x.c.svc = .started then
+      some { x with c := { x.c with cpc := .waitDone, svc := .stopping, stopReq := true, svcErr := true } }
+    else none
+  | .startAgain =>   -- (a loop that honours the old, cancelled context has left by now: the caller waits for quiescence)
+    if x.c.spc = .done ∧ ¬ (x.ctxDone ∧ x.honours ∧ x.c.nRun ≠ 0) then some { x with c := { x.c with spc := .init }, ctxDone := false }
+    else none
+
+def xrun : XCore → List XLabel → Option XCore
+  | x, [] => some x
+  | x, l :: ls => match xstep x l with
+    | some x' => xrun x' ls
+    | none => none
+
+/-- a recoverer that was constructed and whose `Start` has not been called: `init` with "no Start call in progress" -/
+def xfresh (latched honours : Bool) : XCore :=
+  { c := { (if latched then initL else init) with spc := .done }, ctxDone := false, honours := honours }
+
+/-- start-up has quiesced under a context that is still live -/
+def xsettled (latched honours : Bool) : XCore :=
+  { c := if latched then settledL else settled, ctxDone := false, honours := honours }
+
+/-! #### script semantics: operations issued when the system is at rest
+
+The harness drives a recoverer (family "svc") with a script of caller operations, each issued when every goroutine is
+durably blocked.  `xsettle` lets the system run to rest by always taking the first enabled step of `xsysLabels` (every
+step of the recoverer's and the service's goroutines except the passing of time); `xapply` is one operation followed by
+`xsettle`, with what the operation returned. -/
+
+def scriptLabels : List CLabel :=
+  [.sInit, .sSpawn, .sStore, .sSel, .sRespawn, .sClear, .gCall, .gStarted, .gStopSeen, .gSendNil, .gSendErr, .gSendStopped,
+   .cLoad, .cSvcClose, .cWaitDone, .cSignal, .cDrain]
+
+def xsysLabels : List XLabel := [.sCtxDone, .gCtxSeen] ++ scriptLabels.map .core
+
+def xsettle : Nat → XCore → XCore
+  | 0, x => x
+  | fuel + 1, x =>
+    match xsysLabels.findSome? (xstep x) with
+    | some x' => xsettle fuel x'
+    | none => x
+
+/-- no step of the system (time apart) is enabled -/
+def xrest (x : XCore) : Bool := (xsysLabels.findSome? (xstep x)).isNone
+
+inductive XOp
+  | start | cancel | close | panic
+  | coolDown    -- the restart cool-down elapses (time passes between two operations)
+deriving DecidableEq, Repr
+
+inductive XRes
+  | none            -- the operation returns nothing (cancel, panic, time)
+  | accepted        -- Start: blocks in serviceStart
+  | refused         -- Start: ErrServiceAlreadyStarted, at once
+  | closeOk | closeNotRunning | closeRefused
+  | blocked         -- Close has not returned when the system is at rest
+  | outside         -- the operation in this state is outside the model (a second Close while one is blocked, …)
+deriving DecidableEq, Repr
+
+def XRes.ofCRes : CRes → XRes
+  | .ok => .closeOk | .notRunning => .closeNotRunning | .svcRefused => .closeRefused | .none => .outside
+
+def xapply (fuel : Nat) (x : XCore) : XOp → XCore × XRes
+  | .start =>
+    if x.c.spc = .done then
+      match xstep x .startAgain with
+      | some x1 => (xsettle fuel x1, if flagStartRefuses x1.c.running then .refused else .accepted)
+      | none => (x, .outside)
+    else
+      match xstep x .startRefused with
+      | some x1 => (x1, .refused)
+      | none => (x, .outside)
+  | .cancel =>
+    if x.c.spc = .done then (x, .none)         -- no Start call in progress: nothing to cancel
+    else match xstep x .ctxCancel with
+      | some x1 => (xsettle fuel x1, .none)
+      | none => (x, .none)                      -- cancelled before
+  | .close =>
+    match xstep x (.core (if x.c.cpc = .idle then .closeCall else .closeAgain)) with
+    | some x1 => let x2 := xsettle fuel x1; (x2, if x2.c.cpc = .ret then XRes.ofCRes x2.c.cres else .blocked)
+    | none => (x, .outside)
+  | .panic =>
+    match xstep x (.core .gPanic) with
+    | some x1 => (xsettle fuel x1, .none)
+    | none => (x, .outside)
+  | .coolDown =>
+    match xstep x (.core .coolElapsed) with
+    | some x1 => (xsettle fuel x1, .none)
+    | none => (x, .none)
+
+/-- goroutines of the recoverer alive in a state at rest, by the harness's classes: serviceStart / service loops /
+    anything else of the repository (a `recoverableStart` goroutine blocked in its send, a Close that has not returned) -/
+structure Alive where
+  serviceStart : Nat
+  service      : Nat
+  inflight     : Nat
+deriving DecidableEq, Repr
+
+def XCore.aliveNow (x : XCore) : Alive :=
+  { serviceStart := if x.c.spc = .done ∨ x.c.spc = .init then 0 else 1,
+    service := x.c.nStarting + x.c.nRun,
+    inflight := x.c.nCall + x.c.nSendNil + x.c.nSendErr + x.c.nSendStopped + (if x.c.cpc = .idle ∨ x.c.cpc = .ret then 0 else 1) }
+
+def xscript (fuel : Nat) : XCore → List XOp → List (XRes × Alive) × XCore
+  | x, [] => ([], x)
+  | x, op :: ops =>
+    let (x1, r) := xapply fuel x op
+    let (rest, xf) := xscript fuel x1 ops
+    ((r, x1.aliveNow) :: rest, xf)
+
+def scriptFuel : Nat := 64
+
+/-! ### the wrapped services on their own (public constructors; no recoverer)
+
+What `Start` / `Close` of each service kind do when called directly, at rest — the guards the recoverer relies on:
+
+    once     `services.StateMachine` (time ticker, coordinator): Start once, Close once, each refused otherwise
+    flag     own `running` flag (metadata store, runner): Start refused while running, Close refused while not
+    latched  no guard (result store): Start always enters the loop, Close always latches its signal (capacity 1)
+
+`honours`: the loop ends when the context of its Start ends (ticker, result store, metadata store; the coordinator and the
+runner ignore it).  `selfClose`: it ends by calling its own Close (metadata store: `return m.Close()`), which clears the
+flag and drops the block subscription; when `Unsubscribe` fails it reports the error and stops all the same (before the
+fix it returned the error first and left loop and flag as they were: `unsubStops = false`). -/
+
+inductive BKind | once | flag | latched
+deriving DecidableEq, Repr
+
+structure Bare where
+  kind       : BKind
+  honours    : Bool
+  selfClose  : Bool
+  unsubFails : Bool
+  unsubStops : Bool     -- the store sends its stop signal whatever Unsubscribe returned (true = the tree as it is; false = the tree
+                        -- before "fix: metadata store: a failing Unsubscribe no longer leaves the Start loop running after Close")
+  st         : Svc      -- once
+  running    : Bool     -- flag
+  loops      : Nat      -- Start calls that sit in the loop
+  latch      : Bool     -- latched: a close signal nobody has consumed
+  subscribed : Bool     -- metadata store: the block subscription taken by the constructor is still registered
+deriving DecidableEq, Repr
+
+inductive BOp | start | cancel | close
+deriving DecidableEq, Repr
+
+inductive BRes
+  | none | pending | returnedNil | returnedErr | refused
+  | closeOk | closeRefused | closeError | blocked
+deriving DecidableEq, Repr
+
+def bapply (b : Bare) : BOp → Bare × BRes
+  | .start =>
+    match b.kind with
+    | .once => if b.st = .unstarted then ({ b with st := .started, loops := b.loops + 1 }, .pending) else (b, .refused)
+    | .flag => if flagStartRefuses b.running then (b, .refused) else ({ b with running := true, loops := b.loops + 1 }, .pending)
+    | .latched => if b.latch then ({ b with latch := false }, .returnedNil) else ({ b with loops := b.loops + 1 }, .pending)
+  | .cancel =>      -- the context of the Start call(s) in the loop ends; the result is what that Start returned
+    if b.loops = 0 then (b, .none)
+    else if !b.honours then (b, .pending)
+    else if b.selfClose then
+      (if b.unsubFails then                                                          -- `return m.Close()`: the Unsubscribe error
+         (if b.unsubStops then ({ b with loops := 0, running := false }, .returnedErr) else ({ b with loops := 0 }, .returnedErr))
+       else ({ b with loops := 0, running := false, subscribed := false }, .returnedNil))
+    else ({ b with loops := 0 }, .returnedNil)
+  | .close =>
+    match b.kind with
+    | .once => if b.st = .started then ({ b with st := .stopped, loops := 0 }, .closeOk) else (b, .closeRefused)
+    | .flag =>
+      if flagCloseRefuses b.running then (b, .closeRefused)
+      else if b.selfClose ∧ b.unsubFails then
+        (if b.unsubStops then ({ b with running := false, loops := 0 }, .closeError)   -- stops all the same, reports the error
+         else (b, .closeError))                                                        -- (before the fix) returned before the stop signal was sent
+      else ({ b with running := false, loops := 0, subscribed := false }, .closeOk)
+    | .latched =>
+      if b.loops ≠ 0 then ({ b with loops := b.loops - 1 }, .closeOk)                -- one loop consumes the signal
+      else if b.latch then (b, .blocked)                                             -- `s.close <- true` on a full channel
+      else ({ b with latch := true }, .closeOk)
+
+def bscript : Bare → List BOp → List (BRes × Nat) × Bare
+  | b, [] => ([], b)
+  | b, op :: ops =>
+    let (b1, r) := bapply b op
+    let (rest, bf) := bscript b1 ops
+    ((r, b1.loops) :: rest, bf)
+
+def bfresh (kind : BKind) (honours selfClose unsubFails : Bool) (unsubStops : Bool := true) : Bare :=
+  { kind := kind, honours := honours, selfClose := selfClose, unsubFails := unsubFails, unsubStops := unsubStops, st := .unstarted, running := false,
+    loops := 0, latch := false, subscribed := selfClose }
+
+/-- the ticker spawns a `Process` goroutine for a tick iff it has a getter and the getter returned no error -/
+def tickSpawns (getter nilFn err nilErr : Nat) : Bool := !tickSkipped getter nilFn && !decide (err ≠ nilErr)
+
+/-! ### constructors that fail
+
+`plugin.newPlugin` builds the stores, the runner, the coordinator and the flows and only then starts the services
+(`plugin.startServices()` is its last statement): whichever step fails, nothing has been started.  The OCR2 factory
+creates the coordinator and the observer and then starts both: an error of either factory comes before any `Start`. -/
+
+inductive Ctor | built | failed
+deriving DecidableEq, Repr
+
+/-- OCR3: (subscription refused, runner refused) ↦ outcome and number of services started -/
+def newPluginOutcome (subErr runnerErr lateErr : Bool) (services : Nat) : Ctor × Nat :=
+  if subErr then (.failed, 0) else if runnerErr then (.failed, 0) else if lateErr then (.failed, 0) else (.built, services)
+
+/-- OCR3 factory: config decode, probability parse, sample ratio, then `newPlugin` -/
+def newReportingPluginOutcome (cfgErr parseErr sampleErr pluginErr : Bool) (services : Nat) : Ctor × Nat :=
+  if cfgErr then (.failed, 0) else if parseErr then (.failed, 0) else if sampleErr then (.failed, 0)
+  else if pluginErr then (.failed, 0) else (.built, services)
+
+/-- OCR2 factory: config decode, coordinator factory, observer factory, then `Start` of both -/
+def newReportingPluginOutcomeV2 (cfgErr coordErr obsErr : Bool) : Ctor × Nat :=
+  if cfgErr then (.failed, 0) else if coordErr then (.failed, 0) else if obsErr then (.failed, 0) else (.built, 2)
+
+/-- the plugins' Close loops: every sub-service is closed whatever the earlier ones returned; errors are joined.
+    `errs` = which sub-service's Close fails; result = (number closed, number of errors reported) -/
+def closeAll (errs : List Bool) : Nat × Nat := (errs.length, (errs.filter id).length)
+
+/-- what a Close loop that gave up at the first error would do (the behaviour `closeAll` rules out) -/
+def closeUntilError : List Bool → Nat × Nat
+  | [] => (0, 0)
+  | e :: es => if e then (1, 1) else let (n, k) := closeUntilError es; (n + 1, k)
+
 /-! ### the OCR2 counterpart: internal/util/recoverable.go `RecoverableService` (wraps the polling observer's head loop)
 
     Start(): `mu.Lock`; `if running return`; `go serviceStart()`; `run()`; `running = true`; unlock
